@@ -8,7 +8,7 @@
                     CLI with a spec-side oracle (no crash, bounded time, success <=> no error diagnostic, a located error
                     when failing, no artifact after failure).  Exploration, not proof.
 """
-import os, re, json, time, subprocess, hashlib, shutil
+import os, re, json, time, subprocess, hashlib, shutil, threading
 import common
 from common import Work
 
@@ -50,29 +50,39 @@ def load_seeds():
 
 # ------------------------------------------------------------------------------------------------ lexer hook
 
-def run_lexer_hook(inputs, timeout=300):
-    """inputs: list of bytes. Returns list of dict(t, e, n, p) (None where the process died)."""
+def run_lexer_hook(inputs, timeout=60, max_restarts=3, mem_gib=1.5):
+    """inputs: list of bytes. Returns list of dict(t, e, n, p).  The hook handles the inputs sequentially; when the process
+    dies or exceeds `timeout` the input it was working on is marked and the rest is restarted, at most max_restarts times
+    (after that the remaining inputs are marked `not run`), so a lexer that hangs cannot stall the check."""
     hook = os.environ.get("C13_LEXER_HOOK") or common.build_hook("lexer")
     res = [None] * len(inputs)
-    start = 0
+    start = 0; restarts = 0
     while start < len(inputs):
+        if restarts > max_restarts:
+            for k in range(start, len(inputs)):
+                res[k] = {"t": [], "e": [], "n": 0, "p": "process died: not run (the lexer hook died or hung %d times before)" % restarts}
+            break
         inp = b"".join(x.hex().encode() + b"\n" for x in inputs[start:])
         try:
-            p = subprocess.run([hook], input=inp, stdout=subprocess.PIPE, stderr=subprocess.PIPE, timeout=timeout, preexec_fn=common.limit_mem())
+            p = subprocess.run([hook], input=inp, stdout=subprocess.PIPE, stderr=subprocess.PIPE, timeout=timeout,
+                               preexec_fn=common.limit_mem(mem_gib))
             out, err = p.stdout, p.stderr.decode("utf8", "replace")
         except subprocess.TimeoutExpired as e:
             out, err = e.stdout or b"", "TIMEOUT"
-        lines = out.decode("utf8", "replace").splitlines()
         k = 0
-        for ln in lines:
+        for ln in out.split(b"\n"):
+            if not ln.strip():
+                continue
             try:
-                res[start + k] = json.loads(ln)
+                res[start + k] = json.loads(ln.decode("utf8", "replace"))
             except ValueError:
                 break
             k += 1
+            if start + k >= len(inputs):
+                break
         if start + k < len(inputs):
-            res[start + k] = {"t": [], "e": [], "n": 0, "p": "process died: " + err[-1500:]}
-            k += 1
+            res[start + k] = {"t": [], "e": [], "n": 0, "p": "process died: " + err[:700] + " ... " + err[-700:]}
+            k += 1; restarts += 1
         start += k
     return res
 
@@ -259,9 +269,12 @@ def check_output(ok, panic, text, files_abs, libs_dir=None):
     """spec-side oracle on one compile. Returns list of (key, what)."""
     bad = []
     if panic:
+        if is_hang(panic):
+            if "out of memory" in panic or "cannot allocate" in panic:
+                return [("hang", "the compiler allocates without bound: it ran into the %.1f GiB address-space cap (%s)" %
+                         (STREAM_MEM_GIB, "top frame " + frame_key(panic)))]
+            return [("hang", "the compiler did not terminate: " + panic.splitlines()[0][:120])]
         if panic.startswith("process died"):
-            if "TIMEOUT" in panic:
-                return [("hang", "compiler did not terminate within the time limit")]
             return [("crash:" + frame_key(panic), "compiler process died (fatal error / exit inside the library): " + panic[:200])]
         return [("crash:" + frame_key(panic), "internal crash (Go panic): " + panic.splitlines()[0][:160])]
     nerr = len(ERR_LINE.findall(text))
@@ -325,24 +338,70 @@ def html_to_text(s):
     s = re.sub(r"<br\s*/?>", "\n", s or "")
     return html.unescape(_TAG.sub("", s)).replace("\xa0", " ")
 
-def run_batch(reqs, nproc=None, timeout=120, hook=None, libs=None):
-    """reqs: list of dict(id, file, mode, out?). Returns {id: dict(ok, panic, out)}; a request during which the hook process
-    died (Go fatal error, os.Exit in library code, stack overflow) or hung gets panic='process died ...'."""
+REQ_TIMEOUT_MS = 8000        # "terminates in bounded time": per-compile limit inside the in-process driver
+STREAM_MEM_GIB = 2.0         # address-space cap of a driver process: a runaway allocation dies within a second or two
+
+def is_fatal(r):
+    """crash / hang / death of the driver — the outcomes the fail-fast counter looks at."""
+    return bool(r.get("panic"))
+
+def is_hang(panic):
+    return bool(panic) and (panic.startswith("timeout:") or "TIMEOUT" in panic[:200] or "out of memory" in panic or
+                            "cannot allocate memory" in panic)
+
+class Budget:
+    """shared by all slices: wall-clock deadline of the tie stage and the fail-fast counter of crash/hang answers."""
+    def __init__(self, deadline=None, max_fatal=None, ignore=None):
+        self.deadline = deadline; self.max_fatal = max_fatal; self.fatal = 0
+        self.ignore = ignore or (lambda r: False)      # crash sites that are open known findings do not count
+        self.lock = threading.Lock(); self.why = None
+    def note(self, r):
+        if is_fatal(r) and not self.ignore(r):
+            with self.lock:
+                self.fatal += 1
+    def remaining(self):
+        return None if self.deadline is None else self.deadline - time.time()
+    def stop(self):
+        if self.max_fatal is not None and self.fatal >= self.max_fatal:
+            self.why = self.why or "fail-fast: %d crash/hang results" % self.fatal
+            return True
+        if self.deadline is not None and time.time() >= self.deadline:
+            self.why = self.why or "wall-time ceiling of the tie stage reached"
+            return True
+        return False
+
+def run_batch(reqs, nproc=None, timeout=120, hook=None, libs=None, req_timeout_ms=REQ_TIMEOUT_MS, mem_gib=STREAM_MEM_GIB, budget=None):
+    """reqs: list of dict(id, file, mode, out?). Returns {id: dict(ok, panic, out)} for the requests that were run.
+    Every request carries timeout_ms: a compile still running after that time is answered `timeout: ...` by the hook, which
+    then exits with status 3 (the runaway goroutine cannot be stopped) and the slice restarts with the remaining requests.
+    A request during which the process died otherwise (Go fatal error, out of memory under the address-space cap, os.Exit in
+    library code, stack overflow) gets panic='process died ...'.  With a Budget the slices stop early (requests not run are
+    absent from the result) once the deadline has passed or enough crash/hang answers were seen."""
     hook = hook or os.environ.get("C13_BATCH_HOOK") or common.build_hook("batch")
     libs = libs or common.impl().libs
     nproc = nproc or min(common.NCPU, 8, max(1, len(reqs) // 8))
+    reqs = [dict(r, timeout_ms=r.get("timeout_ms", req_timeout_ms)) for r in reqs]
     slices = [reqs[i::nproc] for i in range(nproc)]
     env = dict(os.environ, FERRET_LIBS_PATH=libs, NO_COLOR="1")
     def runslice(sl):
         res = {}
         todo = list(sl)
         while todo:
-            inp = "".join(json.dumps(r) + "\n" for r in todo).encode()
+            if budget is not None and budget.stop():
+                break
+            # feed the process in chunks so that the fail-fast counter and the deadline are looked at regularly
+            chunk = todo[:64]
+            tmo = timeout
+            if budget is not None and budget.remaining() is not None:
+                tmo = max(5, min(timeout, budget.remaining() + 5))
+            inp = "".join(json.dumps(r) + "\n" for r in chunk).encode()
             try:
-                p = subprocess.run([hook], input=inp, stdout=subprocess.PIPE, stderr=subprocess.PIPE, env=env, timeout=timeout, preexec_fn=common.limit_mem())
+                p = subprocess.run([hook], input=inp, stdout=subprocess.PIPE, stderr=subprocess.PIPE, env=env, timeout=tmo,
+                                   preexec_fn=common.limit_mem(mem_gib))
                 out = p.stdout; err = p.stderr.decode("utf8", "replace"); rc = p.returncode
             except subprocess.TimeoutExpired as e:
                 out = e.stdout or b""; err = "TIMEOUT"; rc = -9
+            answered = []
             for line in out.split(b"\n"):
                 if not line.strip():
                     continue
@@ -351,12 +410,18 @@ def run_batch(reqs, nproc=None, timeout=120, hook=None, libs=None):
                 except ValueError:
                     continue
                 res[j["id"]] = dict(ok=j["ok"], panic=j["panic"], out=html_to_text(j["out"]))
-            rest = [r for r in todo if r["id"] not in res]
-            if rest:
+                answered.append(j["id"])
+                if budget is not None:
+                    budget.note(res[j["id"]])
+            rest = [r for r in chunk if r["id"] not in res]
+            exited_on_timeout = rc == 3 and answered and (res[answered[-1]]["panic"] or "").startswith("timeout:")
+            if rest and not exited_on_timeout:
                 r = rest[0]     # requests are handled in order: the first unanswered one is where the process died
-                res[r["id"]] = dict(ok=False, panic="process died rc=%s: %s" % (rc, err[-3000:]), out="")
+                res[r["id"]] = dict(ok=False, panic="process died rc=%s: %s ... %s" % (rc, err[:1500], err[-1500:]), out="")
+                if budget is not None:
+                    budget.note(res[r["id"]])
                 rest = rest[1:]
-            todo = rest
+            todo = rest + todo[len(chunk):]
         return res
     allres = {}
     for r in common.pmap(runslice, slices, workers=nproc):
@@ -675,7 +740,7 @@ def coq_case(i, src, r):
         errs.append("(%d, %d, %d, %d)" % (code, arg, e[1], e[2]))
     return "(%d, %s, [%s], [%s])" % (i, common.coq_bytes(src) if src else "(@nil Z)", "; ".join(toks), "; ".join(errs))
 
-def lexer_correspondence(run, inputs, results, tag):
+def lexer_correspondence(run, inputs, results, tag, timeout=600):
     """returns list of ids where the model and the implementation differ (None if the evaluation itself failed)."""
     shards = []
     cur = []; size = 0
@@ -691,7 +756,7 @@ def lexer_correspondence(run, inputs, results, tag):
         content = ("From Coq Require Import ZArith List.\nFrom FV Require Import Models.LexerTot gen.Gen_C13.\nImport ListNotations.\n"
                    "Open Scope Z_scope.\nDefinition cases : list lcase := [\n" + ";\n".join(shards[k]) + "\n].\n"
                    "Eval vm_compute in (bad_ids lex_ops lex_keywords cases).\n")
-        ok, out = common.coq_eval("c13_%s_%d_%d" % (tag, run.seed, k), content, timeout=600)
+        ok, out = common.coq_eval("c13_%s_%d_%d" % (tag, run.seed, k), content, timeout=timeout)
         ids = common.parse_bad_ids(out) if ok else None
         return ids, out
     bad = []
@@ -848,6 +913,12 @@ def main(run):
     ok = run.proof("Props/C13.v")
     phase["proof"] = round(time.time() - tph, 1); tph = time.time()
     proof_broken = not ok
+    # the tie stage bounds its own time: hard wall-clock ceiling, and fail-fast after MAX_FATAL crash/hang results
+    ceiling = float(os.environ.get("C13_TIE_CEILING_S", "240" if quick else "780"))
+    def known_crash(r):
+        return any(run._match_known(k) is not None for k, _ in check_output(False, r["panic"], "", {}))
+    budget = Budget(deadline=time.time() + ceiling, max_fatal=5, ignore=known_crash)
+    run.extra["tie_stage_ceiling_s"] = ceiling
     # ---------------- seeds and lexer correspondence
     seeds = load_seeds()
     lin = lexer_inputs(rng, seeds, 100 if quick else 600, 80 if quick else 400)
@@ -859,20 +930,20 @@ def main(run):
         for key, what in lexer_spec_oracle(src, r):
             if nbadspec < 3:
                 def still(b, key=key):
-                    rr = run_lexer_hook([b])[0]
+                    rr = run_lexer_hook([b], timeout=5, max_restarts=0)[0]
                     return any(k == key for k, _ in lexer_spec_oracle(b, rr))
-                small = shrink_bytes(src, still) if len(src) > 1 else src
+                small = shrink_bytes(src, still, budget=24) if len(src) > 1 and not budget.stop() else src
                 if run.violation(key, "lexer: " + what, {"kind": "lexer", "input_hex": small.hex(), "input_text": small.decode("latin1"),
                                                          "how": "echo <hex> | hook_lexer  (hooks/lexer/main.go)", "original_hex": src.hex()[:4000]}):
                     nbadspec += 1
-    bad, log = lexer_correspondence(run, lin, lres, "lex")
+    bad, log = lexer_correspondence(run, lin, lres, "lex", timeout=int(max(30, min(budget.remaining(), 150 if quick else 500))))
     run.extra["lexer_cases"] = len(lin)
     if bad is None:
         run.violation("correspondence:C13-lexer-eval", "the model could not be evaluated on the lexer cases", {"log": log}, no_input=True)
     elif bad and nbadspec == 0:
         i = bad[0]
         def differs(b):
-            rr = run_lexer_hook([b])[0]
+            rr = run_lexer_hook([b], timeout=5, max_restarts=0)[0]
             if rr is None or rr["p"]:
                 return False
             ids, _ = lexer_correspondence(run, [b], [rr], "shr")
